@@ -6,6 +6,8 @@ import (
 	"context"
 	"encoding/json"
 	"fmt"
+	"reflect"
+	"sort"
 	"time"
 
 	"github.com/vipnode/vipnode/v2/agent"
@@ -84,4 +86,20 @@ func Ping(srv jsonrpc2.Handler) bool {
 		return false
 	}
 	return string(r.Result) == `"pong"`
+}
+
+var methodMapType = reflect.TypeOf(map[string]jsonrpc2.Method{})
+
+// RegisteredMethods lists the RPC names a server answers to (its registry, reached by type).
+func RegisteredMethods(srv *jsonrpc2.Server) []string {
+	f, ok := FieldByType(srv, methodMapType)
+	if !ok {
+		return nil
+	}
+	var out []string
+	for _, k := range f.MapKeys() {
+		out = append(out, k.String())
+	}
+	sort.Strings(out)
+	return out
 }
